@@ -298,6 +298,10 @@ def bounded_passthrough(reg, tier, seed):
                         fail(f"{vname}/{order}: body never (successfully) parsed but re-encoding is not byte-identical", inp)
                 elif canonical and lossless_variant and out != data:
                     fail(f"{vname}/{order}: canonical datagram not byte-identical after parse", inp)
+                elif canonical and vname == "extended-body" and out != data and not any(f["key"] == "passthrough/trailing-bytes" for f in failures):
+                    # bytes after the last template block are not part of any block: a parse does not keep them
+                    failures.append({"key": "passthrough/trailing-bytes", "clause": f"{t.name}: a datagram with {len(data) - len(out)} bytes after its last block "
+                                     f"re-encodes without them once its body was parsed ({order})", "input": inp, "observed": out.hex()[:120]})
                 if parses and order != "failing_blocks":
                     try:
                         again = de_eager.deserialize(out)
